@@ -678,7 +678,11 @@ func regionClass(r string) string {
 // file and in the padding of a small one).
 func (s *sim) drawBit(size int64, v2 bool) int64 {
 	var lo, hi int64
-	switch s.src.Weighted([]int{30, 8, 22, 10, 14, 16, 10}) {
+	wTail := 10
+	if size > int64(headerSize+blockSize) {
+		wTail = 30 // several blocks: a shortened length can still be a whole number of blocks
+	}
+	switch s.src.Weighted([]int{30, 8, 22, 10, 14, 16, wTail}) {
 	case 6: // the length the v2 tail records (16 bytes before the end of the file)
 		lo, hi = size-16, size-8
 	case 0: // payload
